@@ -201,6 +201,16 @@ func (l *kvsLock) supportTimeout(ver string) {
 		Version:   ver,
 		ExpiresAt: cast.Ptr(time.Now().Add(l.dlp.leaseTTL)),
 	})
+	if err != nil && !errors.Is(err, errors.ErrNotExist) && !errors.Is(err, errors.ErrConflict) && l.isLocked() {
+		// the storage did not answer this time, but the lock is still held: try again with the same
+		// version while the lease is still valid, otherwise it would lapse under the live holder
+		l.dlp.logger.Warnf("supportTimeout could not renew the lease for the key=%s, will retry, err=%s", l.key, err)
+		retryFuture := timeout.Call(func() { l.supportTimeout(ver) }, l.dlp.leaseTTL/8)
+		if !l.future.CompareAndSwap(future, retryFuture) {
+			retryFuture.Cancel()
+		}
+		return
+	}
 	if err != nil {
 		l.dlp.logger.Debugf("supportTimeout raise detected, just do nothing for the key=%s, err=%s", l.key, err)
 		return
